@@ -5,7 +5,8 @@ raises on wider ones and the cascade goes on; `PV (.str cs)` in SizeValue.lean s
 produces a string, so the string operand of every statement — parsed, expanded, final — is narrow, for EVERY input
 (`createOperand_str_narrow`, `parseLine_narrow`, `expand_narrow`, `Stages.operand_narrow`).
 (2) Where the characters come from: the string value of a parsed operand consists of characters of the source line
-(or the blank `parse_line` puts between operands and comment) (`parseLine_str_mem`; independent of (1)).
+(`parseLine_str_mem_line`; since fix d74c37d the FCC string is cut out of the line as written; `parseLine_str_mem` is
+the older, weaker form "of the line, or a blank"; independent of (1)).
 -/
 import CoCoVerif.Lemmas.SizeFix
 
@@ -156,9 +157,25 @@ theorem strip_mem {s : Str} : ∀ ch ∈ strip s, ch ∈ s := by
   have h3 := List.mem_reverse.mp h2
   exact (List.dropWhile_sublist _).subset h3
 
-/-- the string operand of a parsed statement consists of characters of its line, and blanks -/
-theorem parseLine_str_mem {l : Str} {s : Stmt} {x : Str} (h : parseLine l = .ok (some s))
-    (hx : s.operand.value = .str x) : ∀ ch ∈ x, ch ∈ l ∨ ch = ' ' := by
+theorem rstrip_mem {s : Str} : ∀ ch ∈ rstrip s, ch ∈ s := by
+  intro ch hch
+  unfold rstrip at hch
+  have h1 := List.mem_reverse.mp hch
+  have h2 := (List.dropWhile_sublist _).subset h1
+  exact List.mem_reverse.mp h2
+
+theorem operandsTail_mem {l : Str} : ∀ ch ∈ operandsTail l, ch ∈ l := by
+  intro ch hch
+  unfold operandsTail at hch
+  have h1 := (List.dropWhile_sublist _).subset hch
+  have h2 := (List.dropWhile_sublist _).subset h1
+  have h3 := (List.dropWhile_sublist _).subset h2
+  exact (List.dropWhile_sublist _).subset h3
+
+/-- the string operand of a parsed statement consists of characters of its line (since fix d74c37d the FCC string is
+cut out of the line as written: no blank is put in any more) -/
+theorem parseLine_str_mem_line {l : Str} {s : Stmt} {x : Str} (h : parseLine l = .ok (some s))
+    (hx : s.operand.value = .str x) : ∀ ch ∈ x, ch ∈ l := by
   unfold parseLine at h
   split at h
   · cases h
@@ -171,15 +188,6 @@ theorem parseLine_str_mem {l : Str} {s : Stmt} {x : Str} (h : parseLine l = .ok 
     · cases h
     · split at h
       · -- string define
-        have hoo : ∀ ch ∈ (if comment.isEmpty then ops else ops ++ [' '] ++ strip comment), ch ∈ l ∨ ch = ' ' := by
-          intro ch hch
-          split at hch
-          · exact .inl (hops ch hch)
-          · simp only [List.mem_append, List.mem_singleton] at hch
-            rcases hch with (hch | hch) | hch
-            · exact .inl (hops ch hch)
-            · exact .inr hch
-            · exact .inl (hcom ch (strip_mem ch hch))
         split at h
         · cases h
         · rename_i c0 rest hoeq
@@ -190,15 +198,20 @@ theorem parseLine_str_mem {l : Str} {s : Stmt} {x : Str} (h : parseLine l = .ok 
             intro ch hch
             have h1 := createOperand_str_mem hco hx ch hch
             have h2 := List.mem_of_mem_take (strip_mem ch h1)
-            exact hoo ch h2
+            exact operandsTail_mem ch (rstrip_mem ch h2)
           · cases h
       · split at h
         · rename_i o hco
           simp only [Outcome.ok.injEq, Option.some.injEq] at h
           subst h
           intro ch hch
-          exact .inl (hops ch (createOperand_str_mem hco hx ch hch))
+          exact hops ch (createOperand_str_mem hco hx ch hch)
         · cases h
+
+/-- the string operand of a parsed statement consists of characters of its line, and blanks -/
+theorem parseLine_str_mem {l : Str} {s : Stmt} {x : Str} (h : parseLine l = .ok (some s))
+    (hx : s.operand.value = .str x) : ∀ ch ∈ x, ch ∈ l ∨ ch = ' ' :=
+  fun ch hch => .inl (parseLine_str_mem_line h hx ch hch)
 
 /-! ### `resolve_symbols` makes no strings -/
 
